@@ -15,6 +15,8 @@ REGISTRY = {
     "C02": "kverif.props.codec:run_c02",
     "C03": "kverif.props.codec:run_c03",
     "C05": "kverif.props.codec:run_c05",
+    "C06": "kverif.props.faults:run_c06",
+    "C10": "kverif.props.malformed:run_c10",
 }
 
 
@@ -32,7 +34,8 @@ def main(argv=None):
     try:
         mod = importlib.import_module(modname)
         if args.replay:
-            return getattr(mod, "replay")(prop, args.replay)
+            rmod = importlib.import_module("kverif.props.faults") if prop == "C10" else mod
+            return getattr(rmod, "replay")(prop, args.replay)
         return getattr(mod, fn)(args.tier)
     except HarnessError as e:
         print(f"HARNESS-ERROR property={prop} {e}")
